@@ -179,6 +179,11 @@ func main() {
 			err = c12.NonASCII(res)
 		}
 		if err == nil {
+			// "a client and a server configured with the same formatter always agree" also holds for the calls a server
+			// makes through its reverse client, whatever the order of the server's options (shared with C16)
+			err = c16.FormatterOrder(res)
+		}
+		if err == nil {
 			err = c12.Sequences(res)
 		}
 	case "C01":
